@@ -14,20 +14,32 @@ the ones of the current source.
 -/
 namespace Ladim.Seq
 
-abbrev Stmt := String × String × String
+abbrev Cond := Bool × String
+abbrev Stmt := List Cond × String × String
 
-/-- run the statements in order; `guard` decides whether a statement is executed (`none`: unknown guard) -/
-def run {σ : Type} (guard : String → Option Bool) (step : σ → String → String → Option σ) :
+/-- value of a guard: every enclosing condition has the polarity under which the statement is reached; `atom`
+evaluates one condition in the current state (`none`: a condition the interpreter does not know) -/
+def guardVal {σ : Type} (atom : σ → String → Option Bool) (s : σ) : List Cond → Option Bool
+  | [] => some true
+  | (pos, c) :: rest =>
+    match atom s c with
+    | none => none
+    | some b => if b == pos then guardVal atom s rest else some false
+
+/-- run the statements in order.  A statement whose guard is false is skipped; `return` ends the run; a statement,
+guard or `raise` the interpreter does not know makes the run fail (`none`). -/
+def run {σ : Type} (atom : σ → String → Option Bool) (step : σ → String → String → Option σ) :
     List Stmt → σ → Option σ
   | [], s => some s
   | (g, k, t) :: rest, s =>
-    match guard g with
+    match guardVal atom s g with
     | none => none
-    | some false => run guard step rest s
+    | some false => run atom step rest s
     | some true =>
+      if k = "return" then some s else
       match step s k t with
       | none => none
-      | some s' => run guard step rest s'
+      | some s' => run atom step rest s'
 
 section
 variable {α : Type} [Add α] [Sub α] [Mul α] [Div α] [Neg α] [LT α] [DecidableLT α]
@@ -46,8 +58,7 @@ structure SedSt (α : Type) where
 def SedSt.init (p : Sed.Particle α) : SedSt α := ⟨p.z, p.active, p.alive, p.age, p.sinkVel, false, false⟩
 def SedSt.particle (s : SedSt α) : Sed.Particle α := ⟨s.z, s.active, s.alive, s.age, s.sinkVel⟩
 
-def sedGuard : String → Option Bool
-  | "" => some true
+def sedAtom (_ : SedSt α) : String → Option Bool
   | _ => none
 
 open Sed in
@@ -70,10 +81,8 @@ def sedStep (c : Sed.Config α) (e : Sed.Env α) (xi : α) (s : SedSt α) : Stri
 
 
 /-! ### mine -/
-def mineGuard (c : Sed.Mine.Config α) : String → Option Bool
-  | "" => some true
+def mineAtom (c : Sed.Mine.Config α) {σ : Type} (_ : σ) : String → Option Bool
   | "self.has_active()" => some c.hasActive
-  | "not (self.has_active())" => some (!c.hasActive)
   | _ => none
 
 /-- `isActive` / `buriedBefore` as in sedimentation; `act` is the value of `self.active()` (1 for every particle
@@ -132,13 +141,12 @@ inductive LandCollision where
   deriving DecidableEq, Repr
 
 open Chemicals in
-def chemGuard (c : Config α) (lc : LandCollision) : String → Option Bool
-  | "" => some true
+def chemAtom (c : Config α) (lc : LandCollision) {σ : Type} (_ : σ) : String → Option Bool
   | "self.land_collision == 'reposition'" => some (decide (lc = .reposition))
-  | "(not (self.land_collision == 'reposition')) and (self.land_collision == 'coastal_diffusion')" => some (decide (lc = .coastal))
+  | "self.land_collision == 'coastal_diffusion'" => some (decide (lc = .coastal))
   | "self.vertadv" => some c.vertadv
   | "isinstance(self.D, str)" => some (match c.mix with | .labolle _ _ _ => true | _ => false)
-  | "(not (isinstance(self.D, str))) and (self.D)" => some (match c.mix with | .const _ => true | _ => false)
+  | "self.D" => some (match c.mix with | .none => false | _ => true)      -- truthiness of the mixing coefficient
   | "self.horzdiff_type == 'smagorinsky'" => some c.horz.isSome
   | "self.lifespan is not None" => some c.lifespan.isSome
   | _ => none
